@@ -604,6 +604,7 @@ package ro
 //@ loop RetryWithConfig$1$1#0
 //@   iteration ensures count(source.SubscribeWithContext) == 1 && count(attempt.Wait) == 1 && before(source.SubscribeWithContext, attempt.Wait) && arg(source.SubscribeWithContext, 0) == subscriberCtx
 //@   iteration ensures before(subscriptions.AddUnsubscribable, attempt.Wait)
+//@   iteration ensures lastErr != nil && shouldRetry
 
 //@ operator RepeatWith
 //@   props C15 C09
